@@ -45,20 +45,38 @@ def require(cond, sig: str, detail: str = "") -> None:
 # --------------------------------------------------------------------------- config
 
 
+_CFG = None
+_CFG_ITEMS = None
+
+
 def load_config() -> configparser.ConfigParser:
-    """The shipped configuration, read from the current working tree of the repo."""
-    cp = configparser.ConfigParser()
-    cp.read(os.path.join(REPO, "conf", "pygopherd.conf"))
-    return cp
+    """The shipped configuration, read (once, outside any tracer) from the repo's working tree."""
+    global _CFG, _CFG_ITEMS
+    if _CFG is None:
+        cp = configparser.ConfigParser()
+        cp.read(os.path.join(REPO, "conf", "pygopherd.conf"))
+        _CFG = cp
+        _CFG_ITEMS = {}
+        for s in cp.sections():
+            for k, v in cp.items(s, raw=True):
+                _CFG_ITEMS[(s, k)] = v
+    return _CFG
+
+
+def base_items() -> dict:
+    load_config()
+    return dict(_CFG_ITEMS)
 
 
 class DictConfig:
     """A ConfigParser look-alike whose values are plain attributes (symbolic values
     can be stored without going through str())."""
 
-    def __init__(self, base: configparser.ConfigParser | None = None, **over):
+    def __init__(self, base=None, **over):
         self.d = {}
-        if base is not None:
+        if base is True:
+            self.d = base_items()
+        elif base is not None:
             for s in base.sections():
                 for k, v in base.items(s, raw=True):
                     self.d[(s, k)] = v
@@ -232,3 +250,6 @@ def reset_lazies():
     gopherentry.mapping = None
     gopherentry.eaexts = None
     UMN.extstrip = None
+
+
+load_config()
